@@ -15,6 +15,36 @@ CLAIMED = {
             "now < next <= now+period or equals deferred_until; and that all four is_overdue are `now > timestamp+ttl`.",
             "Trusted: pyvc translator, z3/cvc5, CPython integer-microsecond datetime arithmetic, monotone wall clock. "
             "Cron branch excluded (croniter absent)."),
+    "C04": ("deductive verification of report_to_broker, _prepare_retry, Message/MessageDependency.retry/force_retry "
+            "against contracts over a ghost trace of broker calls; chain lemma over the contracts",
+            "Proof that a failed execution is requeued iff already_tried < max_amount, with the counter incremented by "
+            "exactly one, every other parameter unchanged and next_execution_time = now + policy(already_tried+1); "
+            "retry() refuses (leaving the handle usable) once the budget is spent, force_retry() does not.",
+            "Broker = interface contract (one call = one disposition); user policy = total deterministic function; "
+            "redelivery timing is C05/C01."),
+    "C02": ("deductive verification of actor_run/process/report_to_broker/set_result_bucket and the message API "
+            "against contracts: exactly-one-disposition as ghost-trace postcondition on every path incl. exceptional",
+            "Proof that for every outcome of user code (return, any Exception, timeout, _NoAction) process applies "
+            "exactly one terminal broker call chosen by the ladder, before any result store, none after an eager "
+            "response, and that no Exception escapes actor_run.",
+            "User actors touch the broker only via MessageDependency (assumed contract ActorFn.__call__); converters, "
+            "dependency providers, asyncio.gather/wait_for by assumed contracts; liveness not decided."),
+    "C16": ("deductive verification of the six Message actions and the MessageDependency eager actions: guard order, "
+            "single-use flag set only after the broker call returned, _NoAction as the only exit after the action",
+            "Proof of the handle state machine for all categories, retry states and broker failures; eager actions "
+            "never return normally and no callback failure escapes after the broker action.",
+            "Insert position of the lazily placed result-store callable is not modelled; handles not shared across tasks."),
+    "C13": ("deductive verification of set_result_bucket, MessageDependency.set_result/set_exception and their store "
+            "closures, process ordering (disposition before store), result broker selection",
+            "Proof that exactly one bucket with the execution's outcome fields is stored under result.id_ iff results "
+            "are enabled, after the disposition, and that a failing store leaves the disposition untouched.",
+            "Bucket brokers by interface contract; Redis SET EXAT expiry not modelled."),
+    "C06": ("deductive verification of _prepare_reschedule, compute_next_execution_time, report_to_broker reschedule "
+            "branch, Message.reschedule, wait_until: cadence clause from the property statement",
+            "Proof that a completed iteration of a defer_by job yields exactly one requeue with counter 0, TTL clock "
+            "restarted, next time strictly in the future, at most one period ahead, and at least one period after the "
+            "previously scheduled time; first run honours deferred_until.",
+            "cron excluded (croniter absent); delivery latency not decided."),
 }
 NOT_APPLICABLE_REASON = "check not built yet (work in progress; see DESIGN.md section 5 for the planned contracts)"
 
